@@ -260,6 +260,7 @@ class Layout:
         self.rng = rng
         self.comments = comments
         self.chains = chains        # may a call chain be broken across lines (off where lines are compared, C12)
+        self.strings = True         # may a string literal be continued on the next line with a backslash
         self.ncomments = 0
         self.choices = 0
 
@@ -356,7 +357,14 @@ class Renderer:
         if k == "flt":
             return flt_text(n["n"], n["d"])
         if k == "str":
-            return qstr(n["v"])
+            q = qstr(n["v"])
+            # guide (Continuing a Long Line): a backslash at the end of a line inside a string skips the line break and the
+            # leading whitespace of the next line.  Used after a space inside the text; the continuation line is marked CONT.
+            if self.L.rng is not None and self.L.strings and " " in n["v"][:-1] and not n["v"].startswith("boom") and self.L.pick(2, 0.8) == 1:
+                i = q.index(" ", 1)
+                if i < len(q) - 2:
+                    return q[:i + 1] + "\\\n" + CONT + "      " + q[i + 1:]
+            return q
         if k == "istr":
             out = "'"
             for p in n["xs"]:
@@ -772,7 +780,7 @@ class Renderer:
         return [head] + self.block(body, depth + 1)
 
     def program(self, n):
-        lines = self.block(n, 0)
+        lines = "\n".join(self.block(n, 0)).split("\n")      # an element may hold several physical lines
         self.cont_lines = {i for i, l in enumerate(lines) if l.startswith(CONT)}
         return "\n".join(l.replace(CONT, "") for l in lines) + "\n"
 
